@@ -476,7 +476,7 @@ ENUM_TUPLES = [
     ("1,2", "unsigned char"), ("200,255", "unsigned char"), ("-128,127", "signed char"), ("65535,0", "unsigned short"), ("-5,5", "long long"),
     ("4000000000,1", "unsigned int"), ("1,18446744073709551615ULL", "unsigned long long"),
     # every other integer kind as the fixed underlying type, with its most negative / largest value (plain char is a kind of its own)
-    ("-1,-128,127", "char"), ("0,100", "char"), ("-32768,32767,-1", "short"), ("-1,2147483647", "int"), ("-1,1", "long"), ("18446744073709551615UL,0", "unsigned long"),
+    ("-1,-128,127", "char"), ("0,100", "char"), ("-32768,32767,-1", "short"), ("-1,2147483647", "int"), ("-1,1", "long"), ("4294967295UL,0", "unsigned long"),
     ("65535,1", "char16_t"), ("4294967295,7", "char32_t"), ("-1,3", "wchar_t"), ("-9223372036854775807LL-1,0", "long long"), ("255,0", "unsigned char"),
 ]
 ENUM_STYLES = ["consts", "moduleconsts", "newtype", "newtype_global", "bitfield", "rust", "rust_non_exhaustive"]
@@ -560,6 +560,51 @@ def enums_and_vars(ck, only):
                     if bits != size * 8 or (lo < 0) != bool(signed):
                         ck.violation(f"enum E{i} `{ENUM_TUPLES[i][0]}`{(':' + under) if under else ''} style={jid} repr",
                                      {"part": "enums", "why": f"Rust representation {ety} but C underlying type is {'signed' if signed else 'unsigned'} {size * 8} bits"})
+    # the enums again for targets whose `long` / `wchar_t` / enum signedness differ from the host's: width and signedness of the
+    # representation against clang's constant folding for that target (nothing executed)
+    ftargets = ["i686-unknown-linux-gnu", "x86_64-pc-windows-msvc", "armv7-unknown-linux-gnueabihf"] + (["aarch64-unknown-linux-gnu", "i686-pc-windows-msvc"] if ck.tier == "thorough" else [])
+    fstyles = [("rust", False), ("consts", True), ("newtype", True), ("bitfield", True), ("moduleconsts", True)] if ck.tier == "thorough" else [("rust", False), ("consts", True), ("bitfield", True)]
+    fjobs = []
+    fwant = {}
+    # a header every target accepts: fixed underlying types whose WIDTH or SIGNEDNESS depends on the target, and plain enums
+    fcases = [(i, vs, under) for i, vs, under in cases if (under == "char" and not any(v.startswith("-") for v in vs)) or under in ("long", "unsigned long", "short", "long long", "unsigned int", "signed char", "unsigned short", "int")
+              or (under is None and all(-2**31 <= int(re.sub(r"[uUlL]", "", v)) < 2**31 for v in vs))]
+    fhpp = os.path.join(wd, "enums_foreign.hpp")
+    open(fhpp, "w").write("\n".join(l for l in src if any(l.startswith(f"enum E{i} ") for i, _, _ in fcases)) + "\n")
+    cases_host, cases, hpp_host, hpp = cases, fcases, hpp, fhpp
+    for t in ftargets:
+        tp = os.path.join(wd, f"fold_{t}.cc")
+        open(tp, "w").write('#include "enums_foreign.hpp"\n' + "\n".join(f'extern "C" const unsigned long long fz_{i} = sizeof(E{i}); extern "C" const int fs_{i} = (__underlying_type(E{i}))-1 < 0;' for i, _, _ in cases) + "\n")
+        rc, out, err = common.clang(["-x", "c++", "-std=c++14", f"--target={t}", "-S", "-emit-llvm", "-O0", "-w", "-o", "-", tp], cwd=wd)
+        common.guard(rc == 0, f"C05 enum table does not compile for {t}: {err[:300]}")
+        fwant[t] = ({int(m.group(1)): int(m.group(2)) for m in re.finditer(r"@fz_(\d+) = .*?constant i64 (\d+)", out)},
+                    {int(m.group(1)): int(m.group(2)) for m in re.finditer(r"@fs_(\d+) = .*?constant i32 (\d+)", out)})
+        for st, tr in fstyles:
+            fjobs.append({"id": f"{t}|{st}|{int(tr)}", "args": [hpp, "--formatter", "none", "--no-layout-tests", "--default-enum-style", st] + (["--translate-enum-integer-types"] if tr else [])
+                          + ["--", "-x", "c++", "-std=c++14", f"--target={t}"], "inventory": True, "text": False})
+    fres = common.run_jobs(fjobs, wd)
+    for jid, r in fres.items():
+        t = jid.split("|")[0]
+        if r["status"] != "ok":
+            ck.violation(f"enums target={jid} generation-failed", {"part": "enums", "why": str(r)[:200]})
+            continue
+        _, types = enum_view(r["inventory"])
+        for i, vs, under in cases:
+            ety = types.get(f"E{i}")
+            ck.count()
+            ck.nontriv(("foreign-enum", jid, i))
+            if not ety:
+                continue
+            lo, hi = RANGE.get(ety.split("::")[-1], (None, None))
+            if lo is None:
+                continue
+            bits = 8 if hi in (127, 255) else 16 if hi in (32767, 65535) else 32 if hi in (2**31 - 1, 2**32 - 1) else 64
+            size, signed = fwant[t][0][i], fwant[t][1][i]
+            if bits != size * 8 or (lo < 0) != bool(signed):
+                ck.violation(f"enum E{i} `{ENUM_TUPLES[i][0]}`{(':' + under) if under else ''} target={jid} repr",
+                             {"part": "enums", "why": f"Rust representation {ety} but the underlying type on {t} is {'signed' if signed else 'unsigned'} {size * 8} bits"})
+    ck.extra["foreign_enum_runs"] = len(fjobs)
+    cases, hpp = cases_host, hpp_host
     # const variables (default options)
     r = res["consts|0|0"]
     if r["status"] == "ok":
